@@ -2,6 +2,7 @@ import SigHook.Model.Builtin
 import SigHook.Gen.Consts
 import SigHook.Gen.Platform
 import SigHook.Gen.Orderings
+import SigHook.Model.Skel
 /-!
 # C15 — Flags and conditional shutdown do exactly what the flag state dictates
 
@@ -211,5 +212,18 @@ assumes (`run`), never nested inside one another between two actions. -/
 theorem C15_deliveries_do_not_nest :
     Gen.libFlags &&& Gen.SA_NODEFER.toNat = 0 ∧ Gen.libFlags &&& Gen.SA_RESETHAND.toNat = 0 ∧
     Gen.SA_NODEFER ≠ 0 ∧ Gen.SA_RESETHAND ≠ 0 := by decide
+
+/-- **C15.action_skeleton** — tie to the source (regenerated): the four flag actions are exactly what the
+model's `Action`s do. `register` / `register_usize` are one unconditional `store` (SeqCst) of `true` / of
+the registered value - no read-modify-write, no condition; the conditional shutdown is one `load` (SeqCst)
+of the condition followed by `low_level::exit(status)`, which is `libc::_exit` (no exit-time hooks); the
+conditional default checks that the signal is known, then loads the condition and emulates the default. -/
+theorem C15_action_skeleton :
+    skelOf "src/flag.rs" "register" = ["store.true.seqcst"] ∧
+    skelOf "src/flag.rs" "register_usize" = ["store.value.seqcst"] ∧
+    skelOf "src/flag.rs" "register_conditional_shutdown" = ["load.seqcst", "low_level.exit"] ∧
+    skelOf "src/flag.rs" "register_conditional_default" = ["signal_name.check", "load.seqcst", "emulate"] ∧
+    skelOf "src/low_level/mod.rs" "exit" = ["_exit"] := by decide
+
 
 end SigHook.Builtin
